@@ -67,6 +67,27 @@ Proof.
     assert ((2 * (t * 4 + 2) + 4) / (2 * 4) = t + 1) by (symmetry; apply Z.div_unique with 0; lia). lia.
 Qed.
 
+(** arithmetic helpers, stated with small contexts so that nia stays fast without a certificate cache *)
+Lemma sqrt_window hi t P1 P : 0 <= t -> 0 < P1 -> 0 < P -> t * t <= hi < (t + 1) * (t + 1) ->
+  P1 * P1 <= hi < P * P -> P1 <= t < P.
+Proof. intros Ht H1 H2 Hs Hw. split; nia. Qed.
+
+Lemma half_cmp_lex hi lo K t : 0 < K -> 0 <= lo < K -> 0 <= t -> t * t <= hi ->
+  (match hi - t * t ?= t with Eq => lo * 4 ?= K | c => c end) = (4 * (hi * K + lo) ?= (2 * t + 1) * (2 * t + 1) * K).
+Proof.
+  intros HK Hlo Ht Hs. symmetry. destruct (Z.compare_spec (hi - t * t) t) as [C|C|C].
+  - assert (E : hi = t * t + t) by lia. subst hi.
+    destruct (Z.compare_spec (lo * 4) K) as [C2|C2|C2].
+    + apply Z.compare_eq_iff. nia.
+    + apply Z.compare_lt_iff. nia.
+    + apply Z.compare_gt_iff. nia.
+  - apply Z.compare_lt_iff. assert (hi + 1 <= t * t + t) by lia. nia.
+  - apply Z.compare_gt_iff. assert (t * t + t + 1 <= hi) by lia. nia.
+Qed.
+
+Lemma div_window s K lo hi L U : 0 < K -> s = K * hi + lo -> 0 <= lo < K -> L * K <= s < U * K -> L <= hi < U.
+Proof. intros HK E Hlo [H1 H2]. split; nia. Qed.
+
 Section SqrtLong.
 Variable B : Z.
 Hypothesis B_ge_2 : 2 <= B.
@@ -159,14 +180,17 @@ Proof.
       assert (Hd2 : B ^ (dlen B s) = B ^ (dlen B s + shift) * K).
       { rewrite EK2, <- Z.pow_add_r by lia. f_equal. lia. }
       pose proof (Bpos (dlen B s - 1 + shift) ltac:(lia)). pose proof (Bpos (dlen B s + shift) ltac:(lia)).
-      rewrite EM2 in EDM. split.
-      + eapply Z.le_trans; [exact HL2|]. apply Z.lt_succ_r. apply (Z.mul_lt_mono_pos_r K); [lia|]. nia.
-      + eapply Z.lt_le_trans; [|exact HU2]. apply (Z.mul_lt_mono_pos_r K); [lia|]. nia. }
+      rewrite EM2 in EDM.
+      assert (DW : B ^ (dlen B s - 1 + shift) <= hi < B ^ (dlen B s + shift)).
+      { apply (div_window s K lo hi); [exact HK | exact EDM | exact Hlo | rewrite <- Hd1, <- Hd2; lia]. }
+      clear - DW HL2 HU2. lia. }
   pose proof (Bpos (p - 1) ltac:(lia)) as HP1. pose proof (Bpos p ltac:(lia)) as HPp.
+  assert (HtW : s <> 0 -> B ^ (p - 1) <= t < B ^ p).
+  { intros Hs0. specialize (Hwin Hs0). apply (sqrt_window hi t); try assumption. lia. }
   assert (HtU : t < B ^ p).
   { destruct (Z.eq_dec s 0) as [Hs0|Hs0].
     - assert (hi = 0) by (unfold hi; rewrite EM, Hs0; apply Z.div_0_l; lia). subst t. rewrite H. cbn. lia.
-    - specialize (Hwin Hs0). nia. }
+    - apply HtW. exact Hs0. }
   eexists. split; [reflexivity|].
   destruct ((hi - t * t =? 0) && (lo =? 0)) eqn:Ex.
   - (* exact: perfect square and nothing cut off *)
@@ -176,29 +200,22 @@ Proof.
     destruct NS as [N0 N1].
     destruct (Z.eq_dec t 0) as [Ht0|Htn].
     + destruct (N0 Ht0) as [-> ->]. rewrite (repr_round_exact B) by (rewrite dlen_zero; lia).
-      unfold rounded_sqrt_frac. right. split; [reflexivity | nia].
+      unfold rounded_sqrt_frac. right. split; [reflexivity | clear - Hsq Hl0 EDM Ht0; nia].
     + destruct (N1 Htn) as (Hs' & Hmod & j & Hj & Ee & Es).
       assert (Hfit : dlen B s' <= p).
-      { apply (normalized_fits B B_ge_2 p t s'); try assumption; try lia. exists j. auto. }
+      { apply (normalized_fits B B_ge_2 p t s'); [exact Hp | clear - Ht HtU; lia | exact Hmod | exists j; auto]. }
       rewrite (repr_round_exact B) by exact Hfit. unfold rounded_sqrt_frac. left. exists j.
-      split; [exact Hj|]. split; [exact Ee|]. rewrite <- Es. nia.
+      split; [exact Hj|]. split; [exact Ee|]. rewrite <- Es. clear - Hsq Hl0 EDM. nia.
   - (* inexact: one rounding of the integer root, half test on (remainder, cut-off part) *)
     assert (Hpos : 0 < (hi - t * t) * K + lo).
-    { apply Bool.andb_false_iff in Ex. destruct Ex as [Ex|Ex]; apply Z.eqb_neq in Ex; nia. }
-    assert (Hne : t * t * K <> M) by nia.
+    { apply Bool.andb_false_iff in Ex. destruct Ex as [Ex|Ex]; apply Z.eqb_neq in Ex; clear - Ex SL Hlo HK; nia. }
+    assert (Hne : t * t * K <> M) by (clear - Hpos EDM; nia).
     assert (Hs0 : s <> 0).
-    { intros Hz. assert (M = 0) by (rewrite EM, Hz; ring). nia. }
-    specialize (Hwin Hs0).
-    assert (HtL : B ^ (p - 1) <= t) by nia.
+    { intros Hz. assert (M = 0) by (rewrite EM, Hz; ring). clear - H Hpos EDM SL Hlo HK Hhi0. nia. }
+    assert (HtL : B ^ (p - 1) <= t) by (apply HtW; exact Hs0).
     set (c := match hi - t * t ?= t with Eq => lo * 4 ?= K | c => c end).
     assert (Hc : c = (4 * M ?= (2 * t + 1) * (2 * t + 1) * K)).
-    { unfold c. symmetry. destruct (Z.compare_spec (hi - t * t) t) as [C|C|C].
-      - destruct (Z.compare_spec (lo * 4) K) as [C2|C2|C2].
-        + apply Z.compare_eq_iff. nia.
-        + apply Z.compare_lt_iff. nia.
-        + apply Z.compare_gt_iff. nia.
-      - apply Z.compare_lt_iff. nia.
-      - apply Z.compare_gt_iff. nia. }
+    { unfold c. rewrite EDM. rewrite (Z.mul_comm K hi). apply half_cmp_lex; assumption. }
     fold c.
     assert (Hadj : t + adj (round_low_part m t Positive c) = sqrt_round_frac m M K /\
                    round_low_part m t Positive c = (if sqrt_round_frac m M K =? t then NoOp else AddOne)).
@@ -226,14 +243,14 @@ Proof.
     destruct Hadj as [HR Hflag]. set (R := sqrt_round_frac m M K) in *.
     assert (HRt : R = t \/ R = t + 1).
     { pose proof (sqrt_round_frac_contract m M K HM HK) as (_ & _ & H & _). exact H. }
-    assert (HRw : B ^ (p - 1) <= R <= B ^ p) by lia.
+    assert (HRw : B ^ (p - 1) <= R <= B ^ p) by (clear - HRt HtL HtU; lia).
     rewrite HR. cbn [approx_and_then].
     pose proof (normalize_spec B B_ge_2 R k) as NS. destruct (normalize B R k) as [s' e'].
     destruct NS as [_ N1]. destruct (N1 ltac:(lia)) as (Hs' & Hmod & j & Hj & Ee & Es).
     assert (Hfit : dlen B s' <= p).
-    { apply (normalized_fits B B_ge_2 p R s'); try assumption; try lia. exists j. auto. }
+    { apply (normalized_fits B B_ge_2 p R s'); [exact Hp | clear - HRw HP1; lia | exact Hmod | exists j; auto]. }
     rewrite (repr_round_exact B) by exact Hfit. unfold rounded_sqrt_frac. exists j.
-    split; [exact Hj|]. split; [exact Ee|]. split; [exact Hne|]. split; [lia|].
+    split; [exact Hj|]. split; [exact Ee|]. split; [exact Hne|]. split; [clear - Es; lia|].
     split; [exact Hflag|]. split; [rewrite <- Es; exact HRw | exact Hfit].
 Qed.
 
